@@ -104,6 +104,18 @@ class NamespaceMapper(MutableMapping[str, str]):
     def __setitem__(self, prefix: str, uri: str) -> None:
         self.namespaces[prefix] = uri
         self._reverse[uri] = prefix and prefix + ':'
+        self._fix_reverse()
+
+    def _fix_reverse(self) -> None:
+        """Re-point the reverse entries whose prefix is now bound to another namespace."""
+        for uri, prefix in list(self._reverse.items()):
+            if self.namespaces.get(prefix[:-1]) != uri:
+                for k in reversed(self.namespaces.keys()):
+                    if self.namespaces[k] == uri:
+                        self._reverse[uri] = k and k + ':'
+                        break
+                else:
+                    del self._reverse[uri]
 
     def __delitem__(self, prefix: str) -> None:
         uri = self.namespaces.pop(prefix)
@@ -230,6 +242,7 @@ class NamespaceMapper(MutableMapping[str, str]):
                 else:
                     self._reverse.update((v, k and k + ':') for k, v in reversed(xmlns)
                                          if v not in self._reverse)
+                self._fix_reverse()
                 return xmlns
 
             elif not level or self.xmlns_processing == 'collapsed':
